@@ -209,8 +209,9 @@ class Tracer:
                 if c.open_after:
                     prev = getattr(self.shared, "_c21_objs", None)
                     now = probe_objects(self.shared)
-                    c.residue = prev is not None and now != prev
-                    self.shared._c21_objs = now
+                    if not (now[0] and now[0][0].startswith("error:")):
+                        c.residue = prev is not None and now != prev
+                        self.shared._c21_objs = now
         self.cur = None
 
     def start(self, fn: str, owner: Any) -> Inst:
@@ -1167,8 +1168,15 @@ def probe_objects(conn: Any) -> tuple:
 
 
 def probe_conn(conn: Any) -> dict:
+    """{} when the connection cannot be asked (closed: the closed-connection monitors report that)"""
     temp, dbs = probe_objects(conn)
-    res: dict[str, Any] = {"temp_objects": temp, "attached_databases": dbs, "in_transaction": bool(conn.in_transaction)}
+    try:
+        intx = bool(conn.in_transaction)
+    except sqlite3.Error:
+        return {}
+    if temp and temp[0].startswith("error:"):
+        return {}
+    res: dict[str, Any] = {"temp_objects": temp, "attached_databases": dbs, "in_transaction": intx}
     for name in PROBE_PRAGMAS:
         try:
             row = sqlite3.Connection.execute(conn, f"PRAGMA {name}").fetchone()
@@ -1229,7 +1237,8 @@ def run_case(case: dict, table: dict, out: Outcome, tmp: str, idx: int) -> CaseR
                 violate("C21/uncommitted_write:__init__", "the constructor leaves the persistent connection inside a transaction")
             if not side.dead:
                 base_probe.update(probe_conn(sh))
-                sh._c21_objs = (base_probe["temp_objects"], base_probe["attached_databases"])
+                if base_probe:
+                    sh._c21_objs = (base_probe["temp_objects"], base_probe["attached_databases"])
             if sum(i.opened for i in insts) != 1:
                 violate("C21/single_mode_second_connection:__init__",
                         f"construction in single-connection mode opened {sum(i.opened for i in insts)} connections")
@@ -1303,6 +1312,8 @@ def run_case(case: dict, table: dict, out: Outcome, tmp: str, idx: int) -> CaseR
                 now = probe_conn(sh)
                 before = dict(prev_probe)
                 prev_probe.update(now)
+                if not now:
+                    out.count("probe:persistent-connection-cannot-be-probed")
                 for key in sorted(now):
                     if now[key] == base_probe.get(key) or now[key] == before.get(key):
                         continue  # as after construction / left by an earlier call (reported there)
@@ -1320,7 +1331,7 @@ def run_case(case: dict, table: dict, out: Outcome, tmp: str, idx: int) -> CaseR
                                 f"after operation #{n} {op['op']} the persistent connection carries connection-scoped state a "
                                 f"newly opened connection does not have: {key} = {now[key]!r} (after construction: "
                                 f"{base_probe.get(key)!r}); it stays for every later call on this store and its state stores")
-                intx_before[0] = bool(now["in_transaction"])
+                intx_before[0] = bool(now.get("in_transaction"))
                 out.count("probe:connection-state-after-call")
             # the handler table computed from the inputs: which mode answers something the call does not determine
             if op["op"] in ("ws.update", "ws.update_handler_status") and (rp.startswith("raise ") or rs.startswith("raise ")):
